@@ -319,3 +319,22 @@ func Devices() {
 	vp.Assert("dump-writes-nothing-beyond-the-range", beyond)
 	vp.Reach("end")
 }
+
+// LargeDevice: a RAM device larger than one bank (128 KiB over $01:0000-$02:FFFF): a write at any
+// address of the range changes exactly the byte at (address - range start), and a read returns it.
+func LargeDevice() {
+	b, _ := bus.New()
+	ram, sram := vp.Bytes("ram", 0x20000), vp.Bytes("ram", 0x20000)
+	vp.Assert("aligned-attach-accepted", b.Attach(memory.NewRAM(ram, 0x010000), "ram", 0x010000, 0x02FFFF) == nil)
+	a := uint32(0x010000) + vp.U32("offset")&0x1FFFF
+	v := vp.U8("value")
+	failed := vp.Try(func() { b.EaWrite(a, v) })
+	vp.Assert("attached-address-accepts-writes", !failed)
+	sram[a-0x010000] = v
+	vp.Assert("write-changes-exactly-the-addressed-byte-of-the-ram-and-no-other-device", vp.BytesEqual(ram, sram))
+	var got byte
+	failed = vp.Try(func() { got = b.EaRead(a) })
+	vp.Assert("attached-address-is-served", !failed)
+	vp.Assert("device-read-returns-the-byte-at-address-minus-window-start", failed || got == v)
+	vp.Reach("end")
+}
